@@ -28,6 +28,10 @@ pub struct C20Case {
     /// (through setpriv), i.e. like an ordinary user who may delete but not write them
     #[serde(default)]
     pub readonly: bool,
+    /// record locks are refused with EOPNOTSUPP (interposer) below the directory of one intended file,
+    /// like on a file system without lock support; files there are never locked by the harness
+    #[serde(default)]
+    pub nolock_dir: Option<u16>,
 }
 
 fn profile() -> ScenarioProfile {
@@ -46,15 +50,15 @@ fn profile() -> ScenarioProfile {
 }
 
 fn case_strategy() -> BoxedStrategy<C20Case> {
-    (dcase_strategy(profile()), proptest::collection::vec(0u16..u16::MAX, 1..4), prop::bool::weighted(0.1), 0u8..4, prop::bool::weighted(0.35), prop::bool::weighted(0.2))
-        .prop_map(|(mut d, locked, lock_all, range, read_lock, readonly)| {
+    (dcase_strategy(profile()), proptest::collection::vec(0u16..u16::MAX, 1..4), prop::bool::weighted(0.1), 0u8..4, prop::bool::weighted(0.35), prop::bool::weighted(0.2), prop::option::weighted(0.2, 0u16..u16::MAX))
+        .prop_map(|(mut d, locked, lock_all, range, read_lock, readonly, nolock_dir)| {
             // access times change when the harness reads files; keep the intention stable
             for p in d.dopts.priority.iter_mut() {
                 if *p % 12 == 6 || *p % 12 == 7 {
                     *p = 0;
                 }
             }
-            C20Case { d, locked, lock_all, range, read_lock, readonly }
+            C20Case { d, locked, lock_all, range, read_lock, readonly, nolock_dir }
         })
         .boxed()
 }
@@ -168,11 +172,26 @@ fn judge(c: &C20Case, g: &Grouped, target: &std::path::PathBuf) -> Verdict {
     } else {
         c.locked.iter().map(|s| intended[pick(*s, intended.len())].clone()).collect()
     };
+    // a directory in which record locks are "not supported": nothing below it is locked by the harness
+    let nolock: Option<std::path::PathBuf> = match c.nolock_dir {
+        Some(s) if std::path::Path::new(SHIM).exists() && !c.readonly => bytes_path(&intended[pick(s, intended.len())]).parent().map(|p| p.to_path_buf()),
+        _ => None,
+    };
+    let lock_set: BTreeSet<Vec<u8>> = match &nolock {
+        Some(d) => lock_set.into_iter().filter(|p| !bytes_path(p).starts_with(d)).collect(),
+        None => lock_set,
+    };
     let before = Snapshot::take(&[&tree, target]);
     // a lock is a property of the inode: all hard links of a locked file are locked
     let locked_ids: BTreeSet<(u64, u64)> = lock_set.iter().filter_map(|p| before.get(p).map(|n| n.id())).collect();
     let lock_set: BTreeSet<Vec<u8>> =
         intended.iter().filter(|p| before.get(p).map(|n| locked_ids.contains(&n.id())).unwrap_or(false)).cloned().collect();
+    // (a hard link of a locked file that lives below the lock-less directory is reached without a lock
+    // check, which is what such a file system implies: those paths are not expected to stay)
+    let lock_set: BTreeSet<Vec<u8>> = match &nolock {
+        Some(d) => lock_set.into_iter().filter(|p| !bytes_path(p).starts_with(d)).collect(),
+        None => lock_set,
+    };
     let mut held = vec![];
     let mut done: BTreeSet<(u64, u64)> = BTreeSet::new();
     for p in &lock_set {
@@ -187,6 +206,9 @@ fn judge(c: &C20Case, g: &Grouped, target: &std::path::PathBuf) -> Verdict {
     }
     let (args, _) = dedupe_args(d, &files, &g.canon_roots, target, false);
     let mut run = Run::fclones(&g.cd).args(&args).stdin(g.report_bytes.clone());
+    if let Some(d) = &nolock {
+        run = run.env("LD_PRELOAD", SHIM).env("FCV_ROOT", format!("{}:{}", tree.display(), target.display())).env("FCV_NOLOCK_DIR", d).env("RAYON_NUM_THREADS", "1");
+    }
     let before = if c.readonly && std::path::Path::new("/usr/bin/setpriv").exists() {
         use std::os::unix::fs::PermissionsExt;
         for p in &lock_set {
@@ -207,6 +229,9 @@ fn judge(c: &C20Case, g: &Grouped, target: &std::path::PathBuf) -> Verdict {
     sig.push(if c.read_lock { "foreign-read-lock".into() } else { "foreign-write-lock".into() });
     if c.readonly {
         sig.push("locked-files-read-only-no-dac-override".into());
+    }
+    if nolock.is_some() {
+        sig.push("one-directory-without-lock-support".into());
     }
     let fail = |clause: &str, detail: String| Verdict::Fail { clause: clause.into(), detail: format!("{}\n{}\n{}", cmd, detail, out.brief()), sig: sig.clone() };
     if out.timed_out {
@@ -253,7 +278,7 @@ pub fn check(tier: Tier) -> i32 {
     cleanup_process_scratch();
     ctx.finish(
         "exploration",
-        "proptest-generated dedupe scenarios (hostile file names, hard links, priorities, -n, isolate) x operation (remove, link, link --soft, move, dedupe) x a non-empty subset of the files the command intends to process (learnt from a dry run) locked by the harness with open-file-description write or read locks (whole file or byte ranges) x --no-lock on/off; in a fifth of the cases the locked files are read-only and fclones runs without CAP_DAC_OVERRIDE (setpriv), like an ordinary user who may delete but not open them for writing. Oracle: without --no-lock every locked file is untouched (same inode, bytes, path) and a warning is logged, every unlocked intended file is processed; with --no-lock all intended files are processed. Non-trivial = at least one locked and one unlocked intended file in the same run (operation other than the unsupported reflink).",
+        "proptest-generated dedupe scenarios (hostile file names, hard links, priorities, -n, isolate) x operation (remove, link, link --soft, move, dedupe) x a non-empty subset of the files the command intends to process (learnt from a dry run) locked by the harness with open-file-description write or read locks (whole file or byte ranges) x --no-lock on/off; in a fifth of the cases the locked files are read-only and fclones runs without CAP_DAC_OVERRIDE (setpriv), like an ordinary user who may delete but not open them for writing; in another fifth record locks are refused with EOPNOTSUPP below the directory of one intended file (interposer; a file system without lock support, files there are not locked by the harness, single worker thread). Oracle: without --no-lock every locked file is untouched (same inode, bytes, path) and a warning is logged, every unlocked intended file is processed; with --no-lock all intended files are processed. Non-trivial = at least one locked and one unlocked intended file in the same run (operation other than the unsupported reflink).",
         &["F_OFD_SETLK write/read locks held by the harness conflict with fclones' fcntl(F_SETLK) like a lock of a foreign process", "reflink is unsupported here: for `dedupe` only 'locked files untouched' is checked"],
     )
 }
